@@ -402,14 +402,25 @@ def gen_case(seed, index, profile=None):
                     flags.append("experimental-overdraft-function")
             else:
                 key = "k"
-                ctx.meta[(a, key)] = "USD 7"
-                ctx.declare("monetary", ('monetary', "USD", 7), None, origin='meta(@%s, "%s")' % (a, key))
-                ctx.features.add("origin-meta")
+                mode = rng.random()
+                if mode < 0.6:
+                    ctx.meta[(a, key)] = "USD 7"
+                    ctx.declare("monetary", ('monetary', "USD", 7), None, origin='meta(@%s, "%s")' % (a, key))
+                    ctx.features.add("origin-meta")
+                else:
+                    # the key is missing: the account has other metadata (mode < 0.85) or none at all
+                    if mode < 0.85:
+                        ctx.meta[(a, "other")] = "x"
+                    missing = "absent_key"
+                    ty = rng.choice(["string", "asset", "number", "monetary", "account"])
+                    ctx.decls.append((ty, ctx.fresh("mis"), 'meta(@%s, "%s")' % (a, missing)))
+                    ctx.features.add("origin-meta-missing")
+                    ctx.meta_missing = (a, missing)
 
     # use origin variables: append a send that uses the first origin monetary
     extra = []
     for (t, name, origin) in ctx.decls:
-        if origin is not None:
+        if origin is not None and name in ctx.values:
             v = ctx.values[name]
             st, rs = gen_source(ctx, v[1], 2, v[2])
             dt, rd = gen_dest(ctx, v[1], 1, v[2])
@@ -424,9 +435,13 @@ def gen_case(seed, index, profile=None):
             "  %s $%s%s" % (t, n, (" = " + o) if o else "") for t, n, o in ctx.decls) + "\n}\n"
     text = vars_block + "\n".join(t for t, _ in stmts) + "\n"
 
-    # expected failure at variable initialisation (balance() of a negative balance)
+    # expected failure at variable initialisation (balance() of a negative balance, missing metadata)
     var_error = None
     for (t, name, origin) in ctx.decls:
+        if origin and origin.startswith("meta(") and "absent_key" in origin:
+            a = origin[len("meta(@"):].split(",")[0]
+            var_error = ("MetadataNotFound", [a, "absent_key"])
+            break
         if origin and origin.startswith("balance("):
             a = origin[len("balance(@"):].split(",")[0]
             b = 0 if a == "world" else ctx.balances.get((a, ASSETS[0]), 0)
